@@ -173,6 +173,34 @@ Section EquivModel.
     center_matrix k (local_gram K nb).
 
   (* ---------------------------------------------------------------- *)
+  (* global alignment matrices of the locally linear family             *)
+  (* (sparse_matrix_from_triplets sums the values of equal (row, col))  *)
+  (* ---------------------------------------------------------------- *)
+  (* a-th entry of the neighbour list of sample x (positions 0..k-1 are read, k =
+     neighbors[0].size(); lists of one length k are a hypothesis of the theorems) *)
+  Definition nbr (nb : nat -> list nat) (x a : nat) : nat := nth a (nb x) x.
+
+  (* linear_weight_matrix (KLLE, NPE): per sample x with weights w x a (the normalised
+     solution of the local system, an ORACLE value: any function of x and the position):
+       (x,x,1+shift); (n_a,x,-w_a); (x,n_a,-w_a); (n_a,n_b,w_a*w_b)                    *)
+  Definition klle_M (n k : nat) (nb : nat -> list nat) (w : nat -> nat -> F) (shift : F) : mat F :=
+    fun i j => sumn n (fun x =>
+      delta x i * delta x j * (1 + shift)
+      + sumn k (fun a => (delta (nbr nb x a) i * delta x j + delta x i * delta (nbr nb x a) j) * - (w x a))
+      + sumn k (fun a => sumn k (fun b =>
+          delta (nbr nb x a) i * delta (nbr nb x b) j * (w x a * w x b)))).
+
+  (* tangent_weight_matrix (KLTSA, LLTSA): per sample x with the local projector
+     Gx x = G G^T (G = [1/sqrt k | top eigenvectors of the centred local Gram], an ORACLE value):
+       (x,x,shift); (n_a,n_a,1); (n_a,n_b,-Gx_ab)                                       *)
+  Definition kltsa_M (n k : nat) (nb : nat -> list nat) (Gx : nat -> mat F) (shift : F) : mat F :=
+    fun i j => sumn n (fun x =>
+      delta x i * delta x j * shift
+      + sumn k (fun a => delta (nbr nb x a) i * delta (nbr nb x a) j * 1)
+      + sumn k (fun a => sumn k (fun b =>
+          delta (nbr nb x a) i * delta (nbr nb x b) j * - (Gx x a b)))).
+
+  (* ---------------------------------------------------------------- *)
   (* Laplacian Eigenmaps / LPP: compute_laplacian                      *)
   (* ---------------------------------------------------------------- *)
   (* heat(a,b) = exp(-d(a,b)^2 / width) *)
